@@ -162,6 +162,8 @@ def payload_bytes(lit):
     if isinstance(lit, str):
         return lit.encode('ascii')
     if isinstance(lit, dict):
+        if '$text' in lit:
+            return lit['$text'].encode('ascii')
         if '$bytes' in lit:
             return bytes.fromhex(lit['$bytes'])
         if '$bytearray' in lit:
